@@ -2,6 +2,7 @@ package host
 
 import (
 	"encoding/json"
+	"errors"
 	"fmt"
 	"os"
 	"os/exec"
@@ -147,9 +148,14 @@ func TestC17(t *testing.T) {
 			e.Ret("h", "Start", o)
 			return
 		}
+		runnerCalls := 0
 		switch p.Launch {
 		case "runner":
 			cfg.RunnerFunc = func(l hclog.Logger, cmd *exec.Cmd, tmp string) (runner.Runner, error) {
+				runnerCalls++
+				if p.RetryStart && runnerCalls == 1 {
+					return nil, errors.New("runner: sandbox not ready yet")
+				}
 				o.Env = append([]string(nil), cmd.Env...)
 				o.StdinSame = cmd.Stdin == os.Stdin
 				o.Captured = true
@@ -165,6 +171,9 @@ func TestC17(t *testing.T) {
 		}
 		cl := plugin.NewClient(cfg)
 		_, err := cl.Start()
+		if p.RetryStart && err != nil {
+			_, err = cl.Start()
+		}
 		o.StartErr = errStr(err)
 		within(30*time.Second, cl.Kill)
 		if p.Launch != "runner" {
